@@ -8,7 +8,7 @@ usage:
   symx.py check <C06|C07|C08> <introspect.json> <result.json>
   symx.py factors <introspect.json> <factors.txt>
 """
-import sys, json, re, time
+import sys, json, re, time, math
 from fractions import Fraction as F
 
 T, L, M, I, TH, N, J = range(7)
@@ -362,6 +362,20 @@ def check_c08(d, R):
                 R.case(key, True, 'conversion-dispatch-row')
                 if m != [3, 3, 3]:
                     R.violate(key, '%s::%s lacks a to/from-standard conversion row (float,double,long double masks %s)' % (tname, en['name'], m))
+            # "(for units) converts to and from the standard unit": what the run-time conversion does with 0 and 1 in the unit is the affine map its own abbreviation denotes
+            for en, cv in zip(ens, e.get('converts', [])):
+                if cv is None or not en.get('has_abbreviation'): continue
+                key = 'converts/%s::%s' % (tname, en['name'])
+                try: mag, pi, dims = mag_of_unit(e, en)
+                except Unknown: R.case(key, False, 'converts-unrecognised-atom'); continue
+                off = AFFINE.get(en['abbreviation'], F(0)) if tname == 'Temperature' else F(0)
+                want = float(mag) * math.pi ** pi
+                t0, t1, f0, f1 = [float(x) for x in cv]
+                R.case(key, en['value'] != e['standard'], 'converts', dict(unit=tname + '::' + en['name'], symbol=en['abbreviation'], to_standard_of_1=cv[1], denotes=want))
+                ok = abs((t1 - t0) - want) <= 1e-12 * abs(want) and abs(t0 - float(off)) <= 1e-12 * max(1.0, abs(float(off))) and abs((f1 - f0) * want - 1) <= 1e-12 and abs(f0 * want + float(off)) <= 1e-9 * max(1.0, abs(float(off)))
+                if not ok:
+                    R.violate(key, '%s::%s (%s) converts 0 and 1 to the standard unit as %s and %s (and back as %s, %s), but its abbreviation denotes the factor %.17g%s' % (
+                        tname, en['name'], en['abbreviation'], cv[0], cv[1], cv[2], cv[3], want, (' and the offset %.17g' % float(off)) if off else ''), unit=en['name'], type=tname)
         # spellings
         for sp, val in e['spellings']:
             key = 'spelling/%s/%s' % (tname, sp)
